@@ -144,6 +144,11 @@ func (e *Exec) obName(kind string) string {
 	return fmt.Sprintf("%s#%s.%d", e.unit, kind, e.counts[kind])
 }
 
+func (e *Exec) nextCount(kind string) int {
+	e.counts[kind]++
+	return e.counts[kind]
+}
+
 func (e *Exec) pos(p token.Pos) string {
 	if !p.IsValid() {
 		return "?"
